@@ -32,7 +32,9 @@ class Cfg:
         self.name = name
         self.variant = variant          # text | mmap | map
         self.pre = list(pre)            # reads of the root before the fork (unscheduled)
-        self.reads = {int(k): list(v) for k, v in reads.items()}      # proc index -> line numbers
+        # proc index -> accesses: a line number (read it), "open" (call open() again, a no-op on an open object)
+        # or "reenter" (leave and re-enter the object's context: close() + open())
+        self.reads = {int(k): list(v) for k, v in reads.items()}
         self.grandchild = grandchild    # (parent index, child index) or None
         self.workers = len(self.reads)
 
@@ -53,6 +55,13 @@ def make_scenario(cfg, path, offs):
             f = F.MapAccessFile(path, {"k%d" % i: o for i, o in enumerate(offs)})
 
         def read(i):
+            if i == "open":
+                f.open()
+                return "open"
+            if i == "reenter":
+                f.close()
+                f.open()
+                return "reenter"
             if cfg.variant == "map":
                 return f["k%d" % i].rstrip("\n")
             return f[i]
@@ -84,6 +93,8 @@ def make_scenario(cfg, path, offs):
 
 def _digest(line):
     # a line is LINE copies of one digit: report (first char, length, all-same) instead of 6 kB
+    if line in ("open", "reenter"):
+        return line
     if not isinstance(line, str):
         return ("?", repr(line)[:40])
     return (line[:1], len(line), line == line[:1] * len(line))
@@ -100,6 +111,8 @@ def judge(cfg, r):
                                   "%s: unscheduled read before fork returned %r" % (cfg.name, dg), {}))
                 continue
             i, dg = item
+            if i in ("open", "reenter"):
+                continue
             if dg != (str(i), LINE, True):
                 who = "parent" if idx == 0 else "child"
                 v.append(("C18", {"variant": cfg.variant, "kind": "wrong-line", "where": who},
@@ -119,6 +132,10 @@ def plan_for(tier):
         # parent + 1 child, two reads each: ALL interleavings
         plan.append((Cfg("%s/2p" % variant, variant, [4], {0: [0, 2], 1: [3, 1]}), None))
         plan.append((Cfg("%s/2p-nopre" % variant, variant, [], {0: [1, 0], 1: [2, 4]}), None if not q else 3))
+        # access patterns with a defensive open() / a re-entered context in one process
+        plan.append((Cfg("%s/2p-child-opens" % variant, variant, [4], {0: [0, 2], 1: ["open", 3, 1]}), None if not q else 3))
+        plan.append((Cfg("%s/2p-parent-opens" % variant, variant, [1], {0: ["open", 0, 2], 1: [3, 4]}), None if not q else 3))
+        plan.append((Cfg("%s/2p-child-reenters" % variant, variant, [], {0: [2, 0], 1: [1, "reenter", 3]}), 2 if q else None))
         # parent + 2 children
         plan.append((Cfg("%s/3p" % variant, variant, [2], {0: [0, 3], 1: [4, 1], 2: [1, 4]}), 2 if q else 3))
         if not q:
